@@ -187,11 +187,186 @@ def m_str_ends_with_char(ex, st, args, dest_ty, fname):
     return z3.simplify(r) if is_sym(r) else bool(r)
 
 
+I64_MIN, I64_MAX = -(1 << 63), (1 << 63) - 1
+
+
+def parse_int_cases(cs, lo=I64_MIN, hi=I64_MAX):
+    """Semantics of <i64 as FromStr>::from_str over a sequence of chars: optional single '+'/'-', then one or more ASCII digits,
+    value within range. Returns (accept_condition, value_term)."""
+    n = len(cs)
+    if n == 0:
+        return False, 0
+    def digit(c):
+        return z3.And(c >= 48, c <= 57) if is_sym(c) else (48 <= c <= 57)
+    def val(ds):
+        v = 0
+        for c in ds:
+            v = v * 10 + (c - 48)
+        return v
+    c0 = cs[0]
+    plus = (c0 == 43)
+    minus = (c0 == 45)
+    all_digits = True
+    for c in cs:
+        all_digits = b_and(all_digits, digit(c))
+    rest_digits = True
+    for c in cs[1:]:
+        rest_digits = b_and(rest_digits, digit(c))
+    v_plain = val(cs)
+    v_rest = val(cs[1:]) if n > 1 else 0
+    signed_ok = b_and(rest_digits, n > 1)
+    def in_range(v):
+        if is_sym(v):
+            return z3.And(v >= lo, v <= hi)
+        return lo <= v <= hi
+    acc = b_or(b_and(all_digits, in_range(v_plain)),
+               b_or(b_and(b_and(plus if is_sym(plus) else bool(plus), signed_ok), in_range(v_rest)),
+                    b_and(b_and(minus if is_sym(minus) else bool(minus), signed_ok), in_range(-v_rest if not isinstance(v_rest, bool) else 0))))
+    value = v_plain
+    if n > 1:
+        value = ite(minus if is_sym(minus) else bool(minus), -v_rest, ite(plus if is_sym(plus) else bool(plus), v_rest, v_plain))
+    return acc, value
+
+
+def m_parse_i64(ex, st, args, dest_ty, fname):
+    cs = str_chars(ex.deref(args[0], st))
+    acc, value = parse_int_cases(cs)
+    if acc is True:
+        return enum("Ok", value)
+    if acc is False:
+        return enum("Err", ("opaque", "ParseIntError"))
+    acc = z3.simplify(acc)
+    return [(acc, enum("Ok", value)), (z3.Not(acc), enum("Err", ("opaque", "ParseIntError")))]
+
+
+def m_map_err_unit(ex, st, args, dest_ty, fname):
+    r = args[0]
+    if r[1] == "Ok":
+        return r
+    return enum("Err", UNIT)      # the closures in the encoded code are `|_| ()`
+
+
+def m_chars_last(ex, st, args, dest_ty, fname):
+    it = args[0]
+    cs = str_chars(it.s)[it.pos:]
+    return some(cs[-1]) if cs else NONE
+
+
+def m_opt_unwrap(ex, st, args, dest_ty, fname):
+    o = args[0]
+    if o[1] == "Some":
+        return o[2][0]
+    return Panic("called `Option::unwrap()` on a `None` value")
+
+
+def m_to_ascii_uppercase(ex, st, args, dest_ty, fname):
+    c = ex.deref(args[0], st)
+    if is_sym(c):
+        return z3.If(z3.And(c >= 97, c <= 122), c - 32, c)
+    return c - 32 if 97 <= c <= 122 else c
+
+
+def m_to_ascii_lowercase(ex, st, args, dest_ty, fname):
+    c = ex.deref(args[0], st)
+    if is_sym(c):
+        return z3.If(z3.And(c >= 65, c <= 90), c + 32, c)
+    return c + 32 if 65 <= c <= 90 else c
+
+
+def m_str_index_range(ex, st, args, dest_ty, fname):
+    """<str as Index<Range<usize>>>::index: byte offsets must fall on char boundaries (else panic)."""
+    s = ex.deref(args[0], st)
+    cs = str_chars(s)
+    a, b = args[1][1]
+    prefix = [0]
+    for c in cs:
+        prefix.append(prefix[-1] + utf8_len(c))
+    cases = []
+    covered = False
+    for i in range(len(cs) + 1):
+        for j in range(i, len(cs) + 1):
+            ci = (a == prefix[i])
+            cj = (b == prefix[j])
+            ci = z3.simplify(ci) if is_sym(ci) else bool(ci)
+            cj = z3.simplify(cj) if is_sym(cj) else bool(cj)
+            cond = b_and(ci, cj)
+            if is_sym(cond):
+                cond = z3.simplify(cond)
+                if z3.is_false(cond):
+                    continue
+                if z3.is_true(cond):
+                    cond = True
+            if cond is False:
+                continue
+            sub = SymStr(getattr(s, "name", "s") + "[%d..%d]" % (i, j), tuple(cs[i:j])) if isinstance(s, SymStr) else ConcStr(s.s[i:j])
+            cases.append((cond, ("refval", sub)))
+            if cond is True:
+                return ("refval", sub)
+    bad = True
+    for c, _ in cases:
+        bad = b_and(bad, b_not(c))
+    if bad is not False:
+        cases.append((bad, Panic("byte index is not a char boundary / out of range in str slice")))
+    return cases
+
+
+def m_len_utf8(ex, st, args, dest_ty, fname):
+    return utf8_len(args[0])
+
+
+def m_checked_mul_i64(ex, st, args, dest_ty, fname):
+    a, b = args
+    p = a * b
+    if is_sym(p):
+        ok = z3.And(p >= I64_MIN, p <= I64_MAX)
+        return [(ok, some(p)), (z3.Not(ok), NONE)]
+    return some(p) if I64_MIN <= p <= I64_MAX else NONE
+
+
+def m_checked_add_i64(ex, st, args, dest_ty, fname):
+    a, b = args
+    p = a + b
+    if is_sym(p):
+        ok = z3.And(p >= I64_MIN, p <= I64_MAX)
+        return [(ok, some(p)), (z3.Not(ok), NONE)]
+    return some(p) if I64_MIN <= p <= I64_MAX else NONE
+
+
+def m_opt_ok_or(ex, st, args, dest_ty, fname):
+    o, e = args
+    return enum("Ok", o[2][0]) if o[1] == "Some" else enum("Err", e)
+
+
+def m_try_branch(ex, st, args, dest_ty, fname):
+    r = args[0]
+    if r[1] == "Ok":
+        return enum("Continue", r[2][0])
+    return enum("Break", enum("Err", r[2][0]))
+
+
+def m_from_residual_err(ex, st, args, dest_ty, fname):
+    r = args[0]
+    return enum("Err", r[2][0] if r[2] else UNIT)
+
+
 def M(pattern, fn):
     return (re.compile(pattern), fn)
 
 
 COMMON = [
+    M(r"^core::str::<impl str>::parse::<i64>$", m_parse_i64),
+    M(r"^Result::<i64, ParseIntError>::map_err::<\(\), ", m_map_err_unit),
+    M(r"^<Chars<'_> as Iterator>::last$", m_chars_last),
+    M(r"^Option::<char>::unwrap$", m_opt_unwrap),
+    M(r"^char::methods::<impl char>::to_ascii_uppercase$", m_to_ascii_uppercase),
+    M(r"^char::methods::<impl char>::to_ascii_lowercase$", m_to_ascii_lowercase),
+    M(r"^<str as Index<std::ops::Range<usize>>>::index$", m_str_index_range),
+    M(r"^char::methods::<impl char>::len_utf8$", m_len_utf8),
+    M(r"^core::num::<impl i64>::checked_mul$", m_checked_mul_i64),
+    M(r"^core::num::<impl i64>::checked_add$", m_checked_add_i64),
+    M(r"^Option::<.*>::ok_or::<", m_opt_ok_or),
+    M(r"^<Result<.*> as Try>::branch$", m_try_branch),
+    M(r"^<Result<.*> as FromResidual<Result<Infallible, .*>>>::from_residual$", m_from_residual_err),
     M(r"^core::str::<impl str>::chars$", m_str_chars),
     M(r"^<Chars<'_> as Iterator>::peekable$", m_peekable),
     M(r"^core::str::<impl str>::len$", m_str_len),
